@@ -128,7 +128,9 @@ def execute(prop, choices, tier, known=None, collect_known=True, params=None):
 
 def _worker_batch(args):
     prop, seed, tier, idxs, wall_cap, params = args
-    faulthandler.dump_traceback_later(wall_cap, exit=True)
+    # watchdog against a hang inside one batch (25 runs): generous, so that a batch which is merely slow on an
+    # overloaded machine is not thrown away when the time budget of the run phase ends
+    faulthandler.dump_traceback_later(wall_cap + min(wall_cap, 300) + 60, exit=True)
     out = []
     known = core.load_known(KNOWN_PATH)
     try:
@@ -286,7 +288,7 @@ def run_check(prop, tier, seed, nruns, workers=None, batch=None, wall_cap=3000,
         eng.preimport()     # heavy imports once in the parent; workers inherit them by fork
     workers = workers or min(16, os.cpu_count() or 1)
     if batch is None:
-        batch = max(1, min(50, nruns // (workers * 4) or 1))
+        batch = max(1, min(25, nruns // (workers * 4) or 1))
     idx_batches = [list(range(i, min(nruns, i + batch))) for i in range(0, nruns, batch)]
     results = list(pre_results or [])
     harness_errors = []
@@ -295,7 +297,7 @@ def run_check(prop, tier, seed, nruns, workers=None, batch=None, wall_cap=3000,
     jobs = [(prop, seed, tier, b, int(wall_cap), params) for b in idx_batches]
     crashed_batches = []
     skipped_by_budget = []
-    for (bi, status, payload) in pool.run_jobs(_worker_batch, jobs, workers, deadline=deadline, job_timeout=wall_cap + 300):
+    for (bi, status, payload) in pool.run_jobs(_worker_batch, jobs, workers, deadline=deadline, job_timeout=wall_cap + min(wall_cap, 300) + 120):
         if status == 'ok':
             for r in payload:
                 (harness_errors if 'harness_error' in r else results).append(r)
